@@ -405,6 +405,54 @@ func c10Writer(c *core.Ctx) {
 	c.Ob("R3/writeOutput/header", strings.HasPrefix(all, wantHeader), fn.Pos(), "first bytes written: %q", firstN(all, 60))
 	c.Ob("R3/writeOutput/row-layout", all == wantHeader+wantRow, fn.Pos(), "row written for a symbolic record with SNPs [snp1 snp2] and tracts (a,a),(b,b+2): %q, want %q", strings.TrimPrefix(all, wantHeader), wantRow)
 	c.Sample(map[string]string{"rule": "R3", "symbolic_row": wantRow})
+	// several records arriving out of input order, so that more than one row is flushed in one pass:
+	// every row must carry only its own ranges, in input order
+	ev2 := newEval(c)
+	writes2 := captureWrites(ev2)
+	mk := func(idx int64, id string, lo, hi int64, snps ...string) eval.Value {
+		r := absValue(lineT, "r", eval.Sym("L")).(*eval.StructVal)
+		r.F["id"] = eval.S(id)
+		r.F["idx"] = eval.K(idx)
+		var ss []eval.Value
+		for _, x := range snps {
+			ss = append(ss, eval.S(x))
+		}
+		r.F["snps"] = eval.NewSlice(ss...)
+		r.F["snpCount"] = eval.K(int64(len(snps)))
+		if lo > 0 {
+			r.F["ambs"] = eval.NewSlice(eval.K(lo), eval.K(hi))
+			r.F["ambCount"] = eval.K(hi - lo + 1)
+		} else {
+			r.F["ambs"] = eval.NewSlice()
+			r.F["ambCount"] = eval.K(0)
+		}
+		return r
+	}
+	feed := []eval.Value{mk(2, "s2", 6, 7), mk(1, "s1", 0, 0, "A3C"), mk(0, "s0", 1, 2, "A9T", "C10G"), mk(3, "s3", 4, 4)}
+	var args2 []eval.Value
+	for i := 0; i < sig.Params().Len(); i++ {
+		p := sig.Params().At(i)
+		switch t := p.Type().Underlying().(type) {
+		case *types.Chan:
+			if types.Identical(t.Elem(), lineT) {
+				args2 = append(args2, &eval.ChanVal{Name: "in", Feed: feed})
+			} else {
+				args2 = append(args2, &eval.ChanVal{Name: p.Name()})
+			}
+		default:
+			args2 = append(args2, eval.Opaque{Why: "writer"})
+		}
+	}
+	if _, err := ev2.CallFunc(fn, args2...); err != nil {
+		c.Und("R3/writeOutput/out-of-order-batch", fn.Pos(), "cannot evaluate the writer: %v", err)
+		return
+	}
+	var sb strings.Builder
+	for _, w := range *writes2 {
+		sb.WriteString(w.String())
+	}
+	want2 := wantHeader + "s0,A9T|C10G,1-2,2,2\ns1,A3C,,1,0\ns2,,6-7,0,2\ns3,,4,0,1\n"
+	c.Ob("R3/writeOutput/out-of-order-batch", sb.String() == want2, fn.Pos(), "records arriving as idx 2,1,0,3 are written as %q, want %q", sb.String(), want2)
 }
 
 func firstN(s string, n int) string {
